@@ -118,6 +118,8 @@ class _StdApi:
                     opc=opc,
                     first_line=first_line,
                     current_offset=current_offset,
+                    # dis marks only the first instruction of a line
+                    dup_lines=False,
                 )
 
         self.Bytecode = Bytecode
